@@ -337,7 +337,7 @@ func runHarness(prog *ssa.Program, models map[string]*ssa.Function, hp *ssa.Pack
 	pathsMax := int64(200_000)
 	if tier == "thorough" {
 		budget = 60 * time.Minute
-		pathsMax = 5_000_000
+		pathsMax = 8_000_000 // C20's three-entry maps take 4.9 M paths
 	}
 	if v, err := time.ParseDuration(os.Getenv("SSASYM_BUDGET")); err == nil {
 		budget = v
